@@ -115,8 +115,9 @@ Fixpoint abs_of (v : pval) (seen : list Z) {struct v} : sx * list Z :=
   | PDType _ tok => (XList [X "numpy.dtype"; XStr tok], seen)
   | PRandState id m c st =>
       with_identity id (qual m c) seen (fun s1 => let (x, s2) := abs_of st s1 in (XList [X "rng"; x], s2))
-  | PRandGen id m c bg _ =>
-      with_identity id (qual m c) seen (fun s1 => let (x, s2) := abs_of bg s1 in (XList [X "rng"; x], s2))
+  | PRandGen id m c bg ss =>
+      with_identity id (qual m c) seen (fun s1 =>
+        let (x, s2) := abs_of bg s1 in let (y, s3) := abs_of ss s2 in (XList [X "rng"; x; y], s3))
   | PSparse id m c tok => with_identity id (qual m c) seen (fun s1 => (XList [X "sparse"; XStr tok], s1))
   | PFunc _ m c | PType _ m c => (XList [X "name"; XStr (qual m c)], seen)
   | PPartial id m c f a k _ =>
